@@ -23,7 +23,8 @@ Status of each entry (DESIGN §5):
   leaves LO zero, while its own receiver reads a 16-bit frame from MI, LO —
   one of the two is probably wrong, see docs/C18.md); hid.hasseb two-byte
   writes and status codes; ATX hat letters; legacy hasseb 10-byte report; UniPi
-  registers.
+  registers (transmit pair, and the receive triple counter/type/data with its
+  free-running 16-bit counter — `UnipiRx`, `unipiPolls`, `unipiExchange`).
 -/
 namespace DaliVerif.Spec.Gateways
 open DaliVerif Wire
